@@ -121,6 +121,9 @@ func cmdCheck(args []string) int {
 	pool := engine.Pool{Workers: *workers, Seed: seed, Watchdog: 45 * time.Minute, Stall: 100 * time.Second}
 	if *budget > 0 {
 		pool.Deadline = start.Add(*budget)
+		// shards started before the deadline may run on for half the budget again; after that the
+		// histex enumerations stop between two executions (explorations_truncated_by_budget)
+		engine.SoftDeadline.Store(start.Add(*budget + *budget/2).UnixNano())
 	}
 	res := pool.Run(shards, col)
 	if res.HangSuspect != "" {
@@ -220,30 +223,32 @@ func cmdCheck(args []string) int {
 	}
 
 	st := res.Stats
-	exhaustive := len(res.Skipped) == 0 && len(st.CapsHit) == 0 && !stallUnreproduced
+	truncated := engine.Truncated.Load()
+	exhaustive := len(res.Skipped) == 0 && len(st.CapsHit) == 0 && !stallUnreproduced && truncated == 0
 	cov := map[string]any{
-		"states":                        max(st.States, 1),
-		"transitions":                   max(st.Transitions, 1),
-		"traces_validated_against_impl": st.Execs,
-		"evaluations":                   st.Execs,
-		"distinct_nontrivial":           st.Nontrivial,
-		"distinct_outcomes":             st.Outcomes,
-		"choice_points":                 st.Points,
-		"max_depth":                     st.MaxDepth,
-		"rule":                          chk.Rule,
-		"explanation":                   chk.Explanation,
-		"states_transitions_meaning":    chk.StatesNote,
-		"exhaustive":                    exhaustive,
-		"shards_total":                  res.ShardsTotal,
-		"shards_done":                   res.ShardsDone,
-		"shards_skipped_by_budget":      len(res.Skipped),
-		"caps_hit":                      st.CapsHit,
-		"pruned_after_violation":        st.Pruned,
-		"known_findings_matched":        matched,
-		"violation_signatures":          counts,
-		"violations_not_reproduced":     unconfirmed,
-		"workers":                       poolWorkers(*workers),
-		"slowest_shards":                res.Slowest,
+		"states":                           max(st.States, 1),
+		"transitions":                      max(st.Transitions, 1),
+		"traces_validated_against_impl":    st.Execs,
+		"evaluations":                      st.Execs,
+		"distinct_nontrivial":              st.Nontrivial,
+		"distinct_outcomes":                st.Outcomes,
+		"choice_points":                    st.Points,
+		"max_depth":                        st.MaxDepth,
+		"rule":                             chk.Rule,
+		"explanation":                      chk.Explanation,
+		"states_transitions_meaning":       chk.StatesNote,
+		"exhaustive":                       exhaustive,
+		"shards_total":                     res.ShardsTotal,
+		"shards_done":                      res.ShardsDone,
+		"shards_skipped_by_budget":         len(res.Skipped),
+		"explorations_truncated_by_budget": truncated,
+		"caps_hit":                         st.CapsHit,
+		"pruned_after_violation":           st.Pruned,
+		"known_findings_matched":           matched,
+		"violation_signatures":             counts,
+		"violations_not_reproduced":        unconfirmed,
+		"workers":                          poolWorkers(*workers),
+		"slowest_shards":                   res.Slowest,
 	}
 	if st.States == 0 {
 		cov["states_note"] = "this check does not hash abstract states; states is reported as 1"
